@@ -862,6 +862,9 @@ def xml_document_problem(body, text):
     return None
 
 
+FI_CT = 'featureinfo,content-type-from-request'      # known finding C18-d (see known_findings.d/C18.json)
+
+
 def oracle_response(ctx, name, res, rep, req_size, base, skeletons, appdocs):
     sig = 'service=%s,' % name.split('.')[0]
     if 'raised' in res:
@@ -887,6 +890,17 @@ def oracle_response(ctx, name, res, rep, req_size, base, skeletons, appdocs):
         except UnicodeEncodeError:
             ok = False
         if not ok:
+            infofmt = None
+            try:
+                from urllib.parse import parse_qsl
+                vals = [pv for pk, pv in parse_qsl(rep.get('QUERY_STRING') or '', True) if pk.lower() == 'info_format']
+                infofmt = ','.join(vals) if vals else None          # RequestParams joins repeated parameters with a comma
+            except Exception:  # noqa
+                pass
+            if k.lower() == 'content-type' and infofmt and v.startswith(infofmt) and not b''.join(chunks) and '.fi' in name:
+                # finding C18-d: WMS GetFeatureInfo without any result answers Response('', mimetype=<raw INFO_FORMAT>)
+                ctx.fail(FI_CT, 'WMS GetFeatureInfo without result declares the unvalidated INFO_FORMAT parameter %r as Content-type' % infofmt, rep)
+                return 'incomplete'
             ctx.fail(sig + 'bad-header-value', 'header %s: %r cannot be sent (control or non latin-1 characters)' % (k, v[:80]), rep)
             return 'incomplete'
         hd[k.lower()] = v
@@ -1249,6 +1263,8 @@ def part_app(ctx, skeletons):
                 q2 = list(pairs)
                 q2[i] = (key, val + tail)
                 stream.append((name, path, q2, {}, None, 'tail on %s' % key, 'ok'))
+                if '.fi' in name:
+                    stream.append((name, path, q2, {'mapproxy.authorize': 'limited'}, None, 'tail on %s, no result' % key, 'ok'))
             if val.upper() != val:
                 q2 = list(pairs)
                 q2[i] = (key, val.upper())
